@@ -48,6 +48,7 @@ _op = st.one_of(
     st.tuples(st.just("section"), _tgt, _word),
     st.tuples(st.just("title"), _tgt, _word),
     st.tuples(st.just("clear"), _tgt),
+    st.tuples(st.just("foreign-document"), _tgt, st.lists(st.sampled_from(HEADER_POOL), min_size=1, max_size=4, unique=True)),
     st.tuples(st.just("to_text"), _tgt),
 ).map(list)
 
@@ -254,6 +255,16 @@ def evaluate(case):
                 model.children = []
                 open_c[:] = [(r, m) for r, m in open_c if id(m) not in gone]
                 flags.add("clear")
+            elif name == "foreign-document":
+                # an unrelated document with its own header characters lives in the same process
+                s2 = Settings()
+                s2.rst.headers = list(op[2])
+                other = R.RSTWriter("Other document", settings=s2)
+                other.directive("note", "x").text("y")
+                if len(op[2]) > 1:
+                    other.section("sub")
+                other.to_text()
+                flags.add("foreign-document")
             elif name == "to_text":
                 real.to_text()
         except Exception as e:
